@@ -30,7 +30,11 @@ TAnn == IsEvent("annotate") /\
 (* get_citations may be called again on the same text with another configuration *)
 TAgain == IsEvent("reset") /\ stage' = "start" /\ cites' = <<>> /\ groups' = <<>> /\ wrapped' = <<>>
           /\ UNCHANGED <<n, cfg>>
-TNext == Pick \/ TGet \/ TRes \/ TAnn \/ TAgain
+(* markup sessions: clean_text first (the offsets then refer to the cleaned text), and the two-step
+   flow: extra reference citations merged with filter_citations *)
+TClean == IsEvent("clean") /\ CallCleanWith(Ev(tid, l).n_after)
+TMerge == IsEvent("merge") /\ CallMergeWith(Cites(Ev(tid, l)))
+TNext == Pick \/ TGet \/ TRes \/ TAnn \/ TAgain \/ TClean \/ TMerge
 TSpec == TInit /\ [][TNext]_tvars
 
 Raised == (tid # 0 /\ l <= Len(Traces[tid].events) /\ Ev(tid, l).raised # "")
